@@ -63,6 +63,7 @@ type Exec struct {
 	typeParamObjs     map[string]*types.TypeParam
 	mapSorts          map[string]string
 	curProp           string
+	tickDur           Term // `opt tick=<name>`: the duration that counts as one tick of the ghost clock
 	usedPC            map[*ProcContract]bool // contracts relied on at call sites (dependency closure)
 	inGoroutine       bool
 	curFrame          *Frame
